@@ -37,6 +37,11 @@ def _verify_one(args):
     out = {"function": qualname, "obligations": [], "error": None, "kind": "function"}
     try:
         load_specs()
+        # names of fresh constants must not depend on what was generated before (stable solver behaviour)
+        import itertools
+        from . import engine as _eng
+        _eng._ids = itertools.count()
+        L._fresh = itertools.count()
         repo = Repo()
         if qualname.startswith("lemma:"):
             lem = LEMMAS[qualname[6:]]
